@@ -216,6 +216,27 @@ def previous_wraps(fn):
     i = n.slice.left
     binder = _counts_from_zero(fn, n, i.id)
     if binder is None:
+      # a count of the elements that pass a test (sum(1 for .. if ..), len([.. if ..]), .count(x)): zero when nothing passes
+      d = U.reaching_def(fn, i.id, n)
+      counted = None
+      if isinstance(d, ast.Call) and dotted(d.func) == 'sum' and len(d.args) == 1 and isinstance(d.args[0], (ast.GeneratorExp, ast.ListComp)) and \
+          U.const_value(d.args[0].elt) == 1 and any(g.ifs for g in d.args[0].generators):
+        counted = 'the number of elements that pass `%s`' % norm_text(d.args[0].generators[-1].ifs[0])[:50]
+      elif isinstance(d, ast.Call) and dotted(d.func) == 'len' and len(d.args) == 1 and isinstance(d.args[0], (ast.ListComp, ast.GeneratorExp)) and any(g.ifs for g in d.args[0].generators):
+        counted = 'the number of elements that pass `%s`' % norm_text(d.args[0].generators[-1].ifs[0])[:50]
+      elif isinstance(d, ast.Call) and isinstance(d.func, ast.Attribute) and d.func.attr == 'count' and len(d.args) == 1:
+        counted = 'the number of occurrences of %s' % norm_text(d.args[0])[:40]
+      if counted is None:
+        continue
+      r, info = value_reachable(fn, n, i, 0)
+      what = '%s with %s == 0 is %s[-1], the last element, not "none yet"' % (norm_text(n), i.id, norm_text(n.value))
+      if r is False:
+        out.append(Site('previous-wraps', n, OK, info))
+      elif r is True:
+        out.append(Site('previous-wraps', n, BAD, '%s; %s is %s, which is 0 when nothing passes, and %s' % (
+            what, i.id, counted, ('the guards in force (%s) admit 0' % '; '.join(info)) if info else 'no guard excludes 0')))
+      else:
+        out.append(Site('previous-wraps', n, UNKNOWN, 'cannot classify: %s; %s' % (what, info)))
       continue
     r, info = value_reachable(fn, n, i, 0)
     what = '%s at %s == 0 is %s[-1], the last element, not "nothing before the first"' % (norm_text(n), i.id, norm_text(n.value))
@@ -598,6 +619,8 @@ def wrapper_defaults(fi):
 
 # --------------------------------------------------------------------------------------------------------- self examples
 SELF_EXAMPLES = [
+    ('previous-wraps', 'def f(ups, amount):\n  k = sum(1 for h in ups if h <= amount)\n  return amount - ups[k - 1]\n', BAD),
+    ('previous-wraps', 'def f(ups, amount):\n  k = sum(1 for h in ups if h <= amount)\n  return amount - (ups[k - 1] if k else 0)\n', OK),
     ('falsy-domain-zero', 'def f(events, d):\n  return (events[-d] if len(events) >= d else None) or MELODY_NO_EVENT\n', BAD),
     ('falsy-domain-zero', 'def f(events, d):\n  repeated = events[-d] if len(events) >= d else None\n  return repeated or MELODY_NO_EVENT\n', BAD),
     ('falsy-domain-zero', 'def f(events, d):\n  repeated = events[-d] if len(events) >= d else None\n  return MELODY_NO_EVENT if repeated is None else repeated\n', None),
